@@ -47,6 +47,10 @@ pub fn params(profile: &str) -> (MachineParams, HistParams, usize) {
 
 impl Prop for C01 {
     type Case = FwCase;
+    fn admissible(case: &FwCase) -> bool {
+        crate::props::fw_admissible(case)
+    }
+
     const ID: &'static str = "C01";
     const RULE: &'static str = "case = 0..=5 validated machines (all action kinds, counters, limits, pseudo-states; constant or all 11 distribution families) x fractions in [0,1]^2 x history of 1..=60 calls with batches of 0..=40 events, known and unknown machine ids, wild virtual-clock steps (0, tiny, huge, backwards, jumps) x scripted words + seeded stream. Non-trivial: the history returned >=1 action AND contains >=1 of {event naming a machine that does not exist, backwards clock step, internal event (LimitReached/CounterZero/Signal) in the step log, saturated counter}. Distinct = distinct hash of the whole case.";
 
